@@ -31,7 +31,7 @@ from . import models as M
 from . import models_calls as MC
 from . import seqspec
 from .engine import Unsupported, mk_bool, zint
-from .values import Bound, ElemRef, ExtObj, MObj, Ref
+from .values import Bound, ElemRef, ExtObj, MObj, Ref, Unknown
 
 _I = z3.IntSort()
 
@@ -58,6 +58,11 @@ class SeenSet(MObj, ExtObj):
 
     def ext_truth(self, ex, ref):
         return mk_bool(_nonempty(self.dom))
+
+
+# record model name -> shape of the tuple a dict value really is, e.g. ('rec', 'channels') for a dict of
+# (future, channels) pairs whose first component is modelled by the record and whose second one is never inspected
+TUPLE_VALUES: dict = {}
 
 
 class MapView(ExtObj):
@@ -103,7 +108,14 @@ class MapView(ExtObj):
             state['k'] = k
             ex.store_name('_k', k)
             er = ElemRef(mref, k)
-            ex.assign(s.target, k if what == 'keys' else er if what == 'values' else (k, er))
+            mdl = ex.obj(mref).elem_model
+            shape = TUPLE_VALUES.get(mdl.name) if mdl is not None else None
+            val = er
+            if shape is not None:
+                # the dict values are tuples; the record models one component ('rec'), the others are never inspected
+                ex.abstraction_used = True
+                val = tuple(er if c == 'rec' else Unknown(c) for c in shape)
+            ex.assign(s.target, k if what == 'keys' else val if what == 'values' else (k, val))
 
         def stepf():
             if not ex.obj(mref).dom.eq(state['dom0']):
